@@ -40,7 +40,11 @@ func c11Resources() []string {
 	if c11Res != nil {
 		return c11Res
 	}
-	files, _ := filepath.Glob("/repo/res/*.asm")
+	repo := os.Getenv("VERIF_REPO")
+	if repo == "" {
+		repo = "/repo"
+	}
+	files, _ := filepath.Glob(repo + "/res/*.asm")
 	sort.Strings(files)
 	for _, f := range files {
 		b, err := os.ReadFile(f)
